@@ -153,7 +153,9 @@ func ruleFuncValuesOfCorrectType(observers *Events, addError AddErrFunc, disable
 							return
 						}
 
-						isVariable := fieldValue.Kind == ast.Variable
+						// an undefined variable (or a fragment that is not being validated as part
+						// of an operation) has no definition: NoUndefinedVariables reports that
+						isVariable := fieldValue.Kind == ast.Variable && fieldValue.VariableDefinition != nil
 						if isVariable {
 							variableName := fieldValue.VariableDefinition.Variable
 							isNullableVariable := !fieldValue.VariableDefinition.Type.NonNull
